@@ -1,9 +1,13 @@
 (* C04 — MAC tags are the standard HMAC / AES-CMAC values and only those verify.
 
-   Statements only; proofs live in proofs/{Cmac,Hmac,Mac}Proofs.v.
+   Statements only; proofs live in proofs/{Cmac,Hmac,Mac,HmacCode}Proofs.v, MacProofs2.v.
    Models: model/Cmac.v (internal/mac/aescmac as coded + RFC 4493 spec),
-   model/Hmac.v (RFC 2104 transcription), model/Mac.v (constructors, tag
-   truncation, prefix / LEGACY framing, fullMACAdapter, wrappedMAC).
+   model/Hmac.v (RFC 2104 specification in the RFC's words), model/HmacCode.v
+   (crypto/hmac and internal/mac/hmac AS CODED: pads by copy + xor loop, long
+   keys hashed with the outer hash, streaming Write/Sum/Reset with the
+   marshaled-state shortcut, tag truncation, constant-time comparison),
+   model/Mac.v (constructors, tag truncation, prefix / LEGACY framing,
+   fullMACAdapter, wrappedMAC).
    The hash functions `Hash` and the AES block encryption `AES` are arbitrary
    functions constrained only by the stated length / byte-range premises.
 
@@ -11,8 +15,8 @@
    of the message (no state, no randomness), so determinism holds by
    construction; the correspondence run computes every tag twice on the real
    code and compares. *)
-From Coq Require Import List NArith Bool.
-From Tink Require Import Bytes Cmac Hmac Mac CmacProofs HmacProofs MacProofs.
+From Coq Require Import List NArith Bool Lia.
+From Tink Require Import Bytes Cmac Hmac Mac HmacCode CmacProofs HmacProofs MacProofs HmacCodeProofs MacProofs2.
 Import ListNotations.
 Open Scope N_scope.
 
@@ -50,6 +54,40 @@ Theorem C04_hmac_long_key_hashed :
     (B < length k)%nat -> (length (H k) <= B)%nat -> hmac H B k m = hmac H B (H k) m.
 Proof. exact hmac_long_key. Qed.
 Print Assumptions C04_hmac_long_key_hashed.
+
+(* ---- crypto/hmac AS CODED = RFC 2104, for every key length, message, hash ---- *)
+(* A hash.Hash is an abstract state machine (h_init = h() = the state after Reset, h_write,
+   h_sum = Sum(nil)) with block size B; its only law: Sum returns H of the concatenation of
+   what was written since Reset.  Every Sum of every use of the object hmac.New(h, key)
+   (Write in any pieces, Sum(in) any number of times, Reset, with or without the
+   MarshalBinary shortcut of Reset) returns in || HMAC_RFC2104(key, bytes written since
+   New / the last Reset). *)
+Theorem C04_crypto_hmac_as_coded_is_rfc2104 :
+  forall (S : Type) (h_init : S) (h_write : S -> bytes -> S) (h_sum : S -> bytes)
+         (B : nat) (marshalable : bool) (H : bytes -> bytes),
+    (forall chunks, h_sum (fold_left h_write chunks h_init) = H (concat chunks)) ->
+    forall key ops,
+      snd (hm_run S h_init h_write h_sum marshalable (hm_new S h_init h_write h_sum B key) ops)
+      = spec_run B H key [] ops.
+Proof. exact hmac_object_is_rfc2104. Qed.
+Print Assumptions C04_crypto_hmac_as_coded_is_rfc2104.
+
+(* one-shot use (New, Write per piece, Sum(nil)): RFC 2104 of the concatenation, for every
+   split of the message and every key length (no length law of H is needed) *)
+Theorem C04_crypto_hmac_one_shot_is_rfc2104 :
+  forall (S : Type) (h_init : S) (h_write : S -> bytes -> S) (h_sum : S -> bytes)
+         (B : nat) (H : bytes -> bytes),
+    (forall chunks, h_sum (fold_left h_write chunks h_init) = H (concat chunks)) ->
+    forall key data, hmac_code S h_init h_write h_sum B key data = hmac H B key (concat data).
+Proof. exact hmac_code_is_rfc2104. Qed.
+Print Assumptions C04_crypto_hmac_one_shot_is_rfc2104.
+
+(* hmac.Equal / subtle.ConstantTimeCompare == 1 (length test, or-accumulated xor,
+   ConstantTimeByteEq) decides equality of length and contents *)
+Theorem C04_constant_time_compare_is_equality :
+  forall x y, wfb x -> wfb y -> N.eqb (ct_compare x y) 1 = beq x y.
+Proof. exact ct_compare_beq. Qed.
+Print Assumptions C04_constant_time_compare_is_equality.
 
 Section C04.
   Variable Hash : hash_alg -> bytes -> bytes.
@@ -112,23 +150,76 @@ Section C04.
     - intros mac. apply exact_rejects_other. exact Hex.
   Qed.
 
-  (* ... and a tag verifies for another message only if that message has the same tag *)
-  Theorem C04_modified_message_rejected_unless_same_tag :
+  (* ... and MODIFIED MESSAGES: a tag computed for m that verifies for another message m'
+     exhibits a collision of the standard MAC truncated to tag >= 10 bytes on two DIFFERENT
+     MAC inputs (the messages, each with the 0x00 suffix when the key is LEGACY) *)
+  Theorem C04_modified_message_reduction :
     forall p a key tag v id P, build Hash AES p a key tag v id = Built P ->
-    forall m m', pverify P (pcompute P m) m' = true <-> pcompute P m = pcompute P m'.
-  Proof.
-    intros p a key tag v id P HB m m'.
-    apply exact_other_message. exact (proj1 (build_facts Hash AES Hash_len AES_len AES_wf0 _ _ _ _ _ _ _ HB)).
-  Qed.
+    forall m m', m <> m' -> pverify P (pcompute P m) m' = true ->
+      path_msg p v m <> path_msg p v m' /\
+      (10 <= tag)%nat /\
+      length (firstn tag (std_mac Hash AES a key (path_msg p v m))) = tag /\
+      firstn tag (std_mac Hash AES a key (path_msg p v m))
+      = firstn tag (std_mac Hash AES a key (path_msg p v m')).
+  Proof. exact (modified_message_reduction Hash AES Hash_len AES_len AES_wf0). Qed.
 
-  (* only configurations within the size rules yield a MAC object *)
-  Theorem C04_accepted_configurations :
-    forall p a key tag v id P, build Hash AES p a key tag v id = Built P ->
-    match a with
-    | AHmac h => exists ha, h = Some ha /\ (10 <= tag <= digest_size ha)%nat /\ (16 <= length key)%nat
-    | ACmac => (10 <= tag <= 16)%nat /\ (length key = 16 \/ length key = 24 \/ length key = 32)%nat
-    end.
-  Proof. exact (build_sizes Hash AES Hash_len AES_len AES_wf0). Qed.
+  (* two objects over the same algorithm, key bytes and tag size (other path, variant, id):
+     a tag of P for m accepted by P' for m' means equal output prefixes and either equal MAC
+     inputs or a truncated-MAC collision on different MAC inputs *)
+  Theorem C04_cross_object_reduction :
+    forall p p' a key tag v v' id id' P P',
+    build Hash AES p a key tag v id = Built P ->
+    build Hash AES p' a key tag v' id' = Built P' ->
+    forall m m', pverify P' (pcompute P m) m' = true ->
+      path_prefix p v id = path_prefix p' v' id' /\
+      (path_msg p v m = path_msg p' v' m' \/
+       (path_msg p v m <> path_msg p' v' m' /\
+        (10 <= tag)%nat /\
+        length (firstn tag (std_mac Hash AES a key (path_msg p v m))) = tag /\
+        firstn tag (std_mac Hash AES a key (path_msg p v m))
+        = firstn tag (std_mac Hash AES a key (path_msg p' v' m')))).
+  Proof. exact (cross_verify_reduction Hash AES Hash_len AES_len AES_wf0). Qed.
+
+  (* the LEGACY 0x00 suffix between variants: the same key as LEGACY and as CRUNCHY with the
+     same id (same output prefix).  The LEGACY tag of m IS the CRUNCHY tag of m || 0x00 (equal
+     MAC inputs: messages differing only in a trailing 0x00 are not separated across these two
+     variants), and it is accepted for any other message only through a collision *)
+  Theorem C04_legacy_suffix_cross_variant :
+    forall p p' a key tag id P P',
+    p <> PSubtle -> p' <> PSubtle ->
+    build Hash AES p a key tag VLegacy id = Built P ->
+    build Hash AES p' a key tag VCrunchy id = Built P' ->
+    forall m,
+      pverify P' (pcompute P m) (m ++ [0]) = true /\
+      forall m', pverify P' (pcompute P m) m' = true -> m' <> m ++ [0] ->
+        (10 <= tag)%nat /\
+        firstn tag (std_mac Hash AES a key (m ++ [0])) = firstn tag (std_mac Hash AES a key m').
+  Proof. exact (legacy_suffix_cross_variant Hash AES Hash_len AES_len AES_wf0). Qed.
+
+  (* ACCEPTED CONFIGURATIONS, exactly: a MAC object is obtained iff the configuration is inside
+     the stated ranges (in_range, proofs/MacProofs2.v: HMAC known hash, 10 <= tag <= digest size,
+     key >= 16 bytes; AES-CMAC 10 <= tag <= 16 and key size 16/24/32 via mac/subtle, 32 via
+     aescmac.NewMAC and mac.New, 16/32 via a key object behind the factory adapter; NO_PREFIX
+     keys have id requirement 0) -- necessity and totality *)
+  Theorem C04_accepted_configurations_exact :
+    forall p a key tag v id,
+      (exists P, build Hash AES p a key tag v id = Built P) <-> in_range p a (length key) tag v id.
+  Proof. exact (build_accepts_iff Hash AES). Qed.
+
+  (* internal/mac/hmac AS CODED (ComputeMAC: New, Write per argument, Sum(nil), tag[:tagSize];
+     VerifyMAC: hmac.Equal) is the raw MAC object of the model, for any streaming hash that
+     computes Hash a *)
+  Theorem C04_tink_hmac_as_coded_is_model :
+    forall (S : Type) (h_init : S) (h_write : S -> bytes -> S) (h_sum : S -> bytes) (a : hash_alg),
+      (forall chunks, h_sum (fold_left h_write chunks h_init) = Hash a (concat chunks)) ->
+      forall key tag r, hmac_new Hash (Some a) key tag = Ok r ->
+      forall data,
+        tink_hmac_compute S h_init h_write h_sum (block_size a) key tag data
+        = raw_compute r (concat data) /\
+        (forall mac, (forall x, wfb (Hash a x)) -> wfb mac ->
+           tink_hmac_verify S h_init h_write h_sum (block_size a) key tag mac data
+           = raw_verify r mac (concat data)).
+  Proof. exact (tink_hmac_code_is_raw Hash). Qed.
 
   (* A keyset of several MAC keys through mac.New: the primary's standard tag
      is produced, and exactly the standard tags of the keys of the keyset are accepted. *)
@@ -148,8 +239,11 @@ Print Assumptions C04_tag_is_standard_value.
 Print Assumptions C04_verify_iff_tag_eq_compute.
 Print Assumptions C04_tag_length.
 Print Assumptions C04_mutated_tags_rejected.
-Print Assumptions C04_modified_message_rejected_unless_same_tag.
-Print Assumptions C04_accepted_configurations.
+Print Assumptions C04_modified_message_reduction.
+Print Assumptions C04_cross_object_reduction.
+Print Assumptions C04_legacy_suffix_cross_variant.
+Print Assumptions C04_accepted_configurations_exact.
+Print Assumptions C04_tink_hmac_as_coded_is_model.
 Print Assumptions C04_keyset_mac.
 
 (* wrappedMAC over arbitrary exact primitives: accepted = longer than 5 bytes
@@ -192,4 +286,38 @@ Proof.
   - eexists. vm_compute. reflexivity.
   - eexists. vm_compute. reflexivity.
   - eexists. vm_compute. reflexivity.
+Qed.
+
+(* Non-vacuity of the new conditional theorems.  (1) the streaming law is satisfied by the
+   accumulating hash over any H; (2) in_range holds of ordinary configurations and fails just
+   outside; (3) the hypotheses of the reductions are met: with a (bad) constant hash a modified
+   message verifies, and the exhibited collision is a real one (10 equal bytes, different inputs). *)
+Example C04_stream_law_inhabited :
+  forall H : bytes -> bytes,
+    forall chunks, H (fold_left acc_write chunks acc_init) = H (concat chunks).
+Proof. exact acc_stream_law. Qed.
+
+Example C04_in_range_examples :
+  in_range PFactory (AHmac (Some SHA256)) 16 32 VTink 5 /\
+  in_range PSubtle ACmac 24 10 VNoPrefix 9 /\
+  ~ in_range PKey ACmac 16 16 VTink 5 /\
+  ~ in_range PFactory (AHmac (Some SHA1)) 16 21 VTink 5 /\
+  ~ in_range PKey (AHmac (Some SHA512)) 15 64 VTink 5 /\
+  ~ in_range PKey (AHmac (Some SHA512)) 64 64 VNoPrefix 5.
+Proof.
+  unfold in_range. cbn [digest_size]. repeat split; try lia; try discriminate; auto;
+    intros [[? ?] ?]; try lia.
+  assert (5 = 0) by auto. discriminate.
+Qed.
+
+Example C04_reduction_hypotheses_met :
+  let H := fun h (_ : bytes) => zeros (digest_size h) in
+  let A := fun (_ _ : bytes) => zeros 16 in
+  exists P, build H A PKey (AHmac (Some SHA256)) (zeros 20) 10 VLegacy 7 = Built P /\
+            [1] <> [2] /\ pverify P (pcompute P [1]) [2] = true /\
+            [1; 0] <> [2; 0] /\
+            firstn 10 (std_mac H A (AHmac (Some SHA256)) (zeros 20) [1; 0]) = zeros 10.
+Proof.
+  cbv zeta. eexists. split; [vm_compute; reflexivity|].
+  split; [discriminate|]. split; [vm_compute; reflexivity|]. split; [discriminate|]. vm_compute. reflexivity.
 Qed.
